@@ -4,6 +4,8 @@ import (
 	"fmt"
 	"strconv"
 	"strings"
+	"sync"
+	"time"
 
 	"github.com/nspcc-dev/neofs-node/pkg/timers"
 )
@@ -13,6 +15,13 @@ func init() {
 }
 
 var timerFracs = [][2]uint32{{1, 2}, {1, 1}, {3, 2}, {0, 1}, {2, 3}}
+
+// timersOverlapWait bounds how long a handler waits for the call it started in another goroutine. On the unchanged
+// code the call is blocked by the timers' mutex until the handler (and the whole UpdateTime) returns, so every
+// started overlap costs exactly this long.
+const timersOverlapWait = 2 * time.Millisecond
+
+var timersSites = []string{"e0", "e1", "d0", "d1", "d2", "d3", "d4"}
 
 func timersGen(c *runCtx, run func([]string)) {
 	evs := []string{}
@@ -59,12 +68,105 @@ func timersGen(c *runCtx, run func([]string)) {
 		}
 		run(ops)
 	}
+	// calls overlapping a running UpdateTime: every site x {Reset, UpdateTime with the same time, with a later time}
+	// right at the deadline of a small epoch, followed by the block times that show whether the re-arm survived
+	for _, site := range timersSites {
+		for _, call := range []string{"call=reset lt=6 dur=4", "call=reset lt=6 dur=0", "call=update t2=6", "call=update t2=9", "call=update t2=2"} {
+			for _, t := range []int{3, 6} {
+				run([]string{"timers new", "timers reset lt=0 dur=6",
+					fmt.Sprintf("timers update t=%d in=%s %s", t, site, call),
+					"timers update t=6", "timers update t=8", "timers update t=10", "timers update t=12"})
+			}
+		}
+	}
+	// seeded histories mixing atomic and overlapped calls
+	for i := 0; i < c.n(250, 10000); i++ {
+		ops := []string{"timers new"}
+		n := 4 + c.rng.IntN(10)
+		for j := 0; j < n; j++ {
+			switch k := c.rng.IntN(10); {
+			case k < 2:
+				ops = append(ops, fmt.Sprintf("timers reset lt=%d dur=%d", c.rng.IntN(12), c.rng.IntN(14)))
+			case k < 6:
+				ops = append(ops, fmt.Sprintf("timers update t=%d", c.rng.IntN(30)))
+			default:
+				site := timersSites[c.rng.IntN(len(timersSites))]
+				t := c.rng.IntN(30)
+				if c.rng.IntN(2) == 0 {
+					ops = append(ops, fmt.Sprintf("timers update t=%d in=%s call=reset lt=%d dur=%d", t, site, t+c.rng.IntN(3), c.rng.IntN(14)))
+				} else {
+					t2 := t
+					if c.rng.IntN(3) == 0 {
+						t2 = c.rng.IntN(30)
+					}
+					ops = append(ops, fmt.Sprintf("timers update t=%d in=%s call=update t2=%d", t, site, t2))
+				}
+			}
+		}
+		run(ops)
+	}
+}
+
+// timersAtom is one atomic call of the linearised history the oracle follows.
+type timersAtom struct {
+	reset       bool
+	lt, dur, at uint64 // reset: lt, dur; update: at
 }
 
 func timersExec(c *runCtx, ops []string) {
 	var et *timers.EpochTimers
+	var mu sync.Mutex // the counters: handlers may run in two goroutines when calls overlap
 	var eFired int
 	dFired := make([]int, len(timerFracs))
+	// an overlapped call requested by the current op: handler `in` starts it in another goroutine when it runs
+	type overlap struct {
+		in   string
+		call func()
+	}
+	var req *overlap
+	var pending chan struct{}
+	var inside bool
+	handler := func(name string, bump func()) timers.Tick {
+		return func() {
+			mu.Lock()
+			bump()
+			r := req
+			if r != nil && r.in == name {
+				req = nil
+			} else {
+				r = nil
+			}
+			mu.Unlock()
+			if r == nil {
+				return
+			}
+			started, done := make(chan struct{}), make(chan struct{})
+			go func() {
+				close(started)
+				r.call()
+				close(done)
+			}()
+			<-started
+			fin := false
+			select {
+			case <-done:
+				fin = true
+			case <-time.After(timersOverlapWait):
+			}
+			mu.Lock()
+			pending, inside = done, fin
+			mu.Unlock()
+		}
+	}
+	mkTimers := func(fracs [][2]uint32) {
+		var tt timers.EpochTicks
+		tt.NewEpochTicks = []timers.Tick{handler("e0", func() { eFired++ }), handler("e1", func() { eFired++ })}
+		for i, f := range fracs {
+			tt.DeltaTicks = append(tt.DeltaTicks, timers.SubEpochTick{Tick: handler(fmt.Sprintf("d%d", i), func() { dFired[i]++ }), EpochMul: f[0], EpochDiv: f[1]})
+		}
+		et = timers.NewTimers(tt)
+	}
+	nFracs := 0
 	// oracle state, from the property text
 	type sched struct {
 		active bool
@@ -73,55 +175,154 @@ func timersExec(c *runCtx, ops []string) {
 	}
 	var eS sched
 	dS := make([]sched, len(timerFracs))
+	// follow one atomic call; returns per handler how often it must fire (-1: nothing is claimed, e.g. uint64 overflow
+	// of the schedule or a fraction above one)
+	follow := func(a timersAtom, wantE *int, wantD []int) {
+		if a.reset {
+			overflow := a.lt+a.dur < a.lt
+			eS = sched{active: !overflow, at: a.lt + a.dur}
+			for i, f := range timerFracs {
+				dS[i] = sched{active: !overflow && f[0] <= f[1], at: a.lt + a.dur*uint64(f[0])/uint64(f[1])}
+			}
+			return
+		}
+		one := func(s *sched, want *int) {
+			if !s.active {
+				*want = -1
+				return
+			}
+			if !s.fired && s.at <= a.at {
+				s.fired = true
+				if *want >= 0 {
+					*want++
+				}
+			}
+		}
+		one(&eS, wantE)
+		for i := range dS {
+			one(&dS[i], &wantD[i])
+		}
+	}
 	for _, line := range ops {
 		o := parseOp(line)
 		c.count(o.name)
+		if et == nil && o.name != "new" {
+			mkTimers(nil) // a history that does not start with `new` (shrinking): timers without sub-epoch handlers
+			nFracs = 0
+		}
 		switch o.name {
 		case "new":
-			var tt timers.EpochTicks
-			tt.NewEpochTicks = []timers.Tick{func() { eFired++ }, func() { eFired++ }}
-			for i, f := range timerFracs {
-				tt.DeltaTicks = append(tt.DeltaTicks, timers.SubEpochTick{Tick: func() { dFired[i]++ }, EpochMul: f[0], EpochDiv: f[1]})
-			}
-			et = timers.NewTimers(tt)
+			mkTimers(timerFracs)
+			nFracs = len(timerFracs)
 			c.emit(line, "=> ok")
 		case "reset":
 			lt, dur := o.u64("lt"), o.u64("dur")
 			et.Reset(lt, dur)
 			c.emit(line, "=> ok")
-			overflow := lt+dur < lt
-			eS = sched{active: !overflow, at: lt + dur}
-			for i, f := range timerFracs {
-				dS[i] = sched{active: !overflow && f[0] <= f[1], at: lt + dur*uint64(f[0])/uint64(f[1])}
-			}
+			follow(timersAtom{reset: true, lt: lt, dur: dur}, nil, nil)
 		case "update":
 			t := o.u64("t")
+			site, overlapped := o.kv["in"]
+			var call timersAtom
+			if overlapped {
+				ok := false
+				for _, s := range timersSites {
+					ok = ok || s == site
+				}
+				switch o.kv["call"] {
+				case "reset":
+					call = timersAtom{reset: true, lt: o.u64("lt"), dur: o.u64("dur")}
+				case "update":
+					call = timersAtom{at: o.u64("t2")}
+				default:
+					ok = false
+				}
+				if !ok {
+					c.emit(line, "=> bad-op")
+					continue
+				}
+			}
+			mu.Lock()
 			eFired = 0
 			for i := range dFired {
 				dFired[i] = 0
 			}
+			pending, inside, req = nil, false, nil
+			if overlapped {
+				tm := et
+				if call.reset {
+					req = &overlap{in: site, call: func() { tm.Reset(call.lt, call.dur) }}
+				} else {
+					req = &overlap{in: site, call: func() { tm.UpdateTime(call.at) }}
+				}
+				c.count("update:overlapped:" + o.kv["call"])
+			}
+			mu.Unlock()
 			et.UpdateTime(t)
-			var ds []string
-			for _, d := range dFired {
-				ds = append(ds, strconv.Itoa(d))
-			}
-			c.emit(line, fmt.Sprintf("=> ok e=%d d=%s", eFired/2, strings.Join(ds, ",")))
-			chk := func(name string, s *sched, fired int) {
-				if !s.active {
-					return
+			mu.Lock()
+			p := pending
+			req = nil
+			mu.Unlock()
+			stuck := false
+			if p != nil {
+				select {
+				case <-p:
+				case <-time.After(10 * time.Second):
+					stuck = true
 				}
-				want := 0
-				if !s.fired && s.at <= t {
-					want = 1
-					s.fired = true
-				}
-				c.oracle(name+"-fires-exactly-once-at-its-time", fired == want,
-					fmt.Sprintf("%s scheduled at %d, block time %d: fired %d times, want %d", name, s.at, t, fired, want))
 			}
-			c.oracle("all-new-epoch-handlers-fire-together", eFired == 0 || eFired == 2, fmt.Sprintf("fired %d of 2", eFired))
-			chk("new-epoch", &eS, eFired/2)
+			mu.Lock()
+			e, ds := eFired, append([]int(nil), dFired[:nFracs]...)
+			fin := inside
+			mu.Unlock()
+			var dss []string
+			for _, d := range ds {
+				dss = append(dss, strconv.Itoa(d))
+			}
+			obs := fmt.Sprintf("=> ok e=%d d=%s", e/2, strings.Join(dss, ","))
+			if overlapped {
+				started := 0
+				if p != nil {
+					started = 1
+					c.count("update:overlapped:started")
+					if fin {
+						c.count("update:overlapped:completed-while-the-handler-ran")
+					}
+				}
+				obs += fmt.Sprintf(" started=%d", started)
+				if stuck {
+					obs = "=> stuck"
+				}
+			}
+			c.emit(line, obs)
+			// the property's oracle over the linearised history: this UpdateTime, then the overlapped call (if made)
+			wantE, wantD := 0, make([]int, len(timerFracs))
+			atE, atD := eS.at, make([]uint64, len(timerFracs)) // the schedules this UpdateTime works with
 			for i := range dS {
-				chk(fmt.Sprintf("sub-epoch-%d/%d", timerFracs[i][0], timerFracs[i][1]), &dS[i], dFired[i])
+				atD[i] = dS[i].at
+			}
+			follow(timersAtom{at: t}, &wantE, wantD)
+			what := fmt.Sprintf("block time %d", t)
+			if p != nil {
+				follow(call, &wantE, wantD)
+				if call.reset {
+					what += fmt.Sprintf(" with Reset(%d,%d) issued while handler %s ran", call.lt, call.dur, site)
+				} else {
+					what += fmt.Sprintf(" with UpdateTime(%d) issued while handler %s ran", call.at, site)
+				}
+			}
+			c.oracle("all-new-epoch-handlers-fire-together", e%2 == 0, fmt.Sprintf("%s: fired %d handler calls of 2 handlers", what, e))
+			c.oracle("overlapped-call-returns", !stuck, what+": the overlapped call did not return within 10s")
+			if wantE >= 0 {
+				c.oracle("new-epoch-fires-exactly-once-at-its-time", e/2 == wantE,
+					fmt.Sprintf("new-epoch scheduled at %d, %s: fired %d times, want %d", atE, what, e/2, wantE))
+			}
+			for i := 0; i < nFracs; i++ {
+				if wantD[i] >= 0 {
+					name := fmt.Sprintf("sub-epoch-%d/%d", timerFracs[i][0], timerFracs[i][1])
+					c.oracle(name+"-fires-exactly-once-at-its-time", ds[i] == wantD[i],
+						fmt.Sprintf("%s scheduled at %d, %s: fired %d times, want %d", name, atD[i], what, ds[i], wantD[i]))
+				}
 			}
 		default:
 			c.emit(line, "=> bad-op")
